@@ -501,4 +501,270 @@ def nttPipeline (P : PrimeSet) (h : Nat) (ntt intt : Nat → List Nat → List N
   let l3 := laneK P.q3 h (ntt 3) (intt 3) p x
   (List.range x.length).map (fun i => bToZnx128Core P (l0.getD i 0) (l1.getD i 0) (l2.getD i 0) (l3.getD i 0))
 
+/-! ### ntt.rs: `NttTable::new`, `NttTableInv::new`, `ntt_ref`, `intt_ref` — one prime lane
+
+The four primes never interact inside the transform: the model works on one lane (the `n` residues
+of prime `k`, `data[4·i + k]`), with that prime's column of `powomega` and `q2bs`.  The Rust runs
+level by level over all blocks; a block of one level only feeds its own two half blocks of the next
+level, so the model recurses into the halves (depth first) — the same values in a different order of
+evaluation (the AVX2 twin uses the same by-block order for `n ≤ 1024`). -/
+
+/-- `NttStepMeta` of one prime -/
+structure StepMeta where
+  q2bs : Nat
+  bs : Nat
+  halfBs : Nat
+  mask : Nat
+  reduce : Bool
+deriving Repr
+
+/-- `NttReducMeta` of one prime -/
+structure ReducK where
+  h : Nat
+  mask : Nat
+  cst : Nat
+deriving Repr
+
+/-- one level: metadata and this prime's packed twiddles, in table order -/
+abbrev Level := StepMeta × List Nat
+
+structure TableK where
+  n : Nat
+  levels : List Level
+  reduc : ReducK
+  outBs : Nat
+deriving Repr
+
+/-- `count` successive table entries `pack(pow), pack(pow·step mod q), …` (`u64` product, `% q`) -/
+def packedPowers (q halfBs : Nat) : Nat → Nat → Nat → List Nat
+  | 0, _, _ => []
+  | c + 1, pow, step => packOmega pow halfBs q :: packedPowers q halfBs c (wu64 (pow * step) % q) step
+
+def isPow2 (n : Nat) : Bool := n != 0 && n &&& (n - 1) == 0
+
+def reducOf (P : PrimeSet) (k : Nat) : ReducK × Nat :=
+  let rm := fillReductionMeta P 64
+  ({ h := rm.h, mask := rm.mask, cst := rm.cst.getD k 0 }, rm.bsAfter)
+
+/-- the `while nn >= 2` loop of `NttTable::new` (`fuel` = number of levels left) -/
+def fwdLevels (q logQ omega n bsAfter : Nat) : Nat → Nat → Nat → Outcome (List Level × Nat)
+  | 0, _, bs => .ok ([], bs)
+  | fuel + 1, nn, bs =>
+    let halfnn := nn / 2
+    let doReduce := bs == 64
+    let bs := if doReduce then bsAfter else bs
+    let q2bs := wu64 (q * 2 ^ (bs - logQ))
+    if nn ≥ 4 then
+      let bs1 := bs + 1
+      let halfBs := (bs1 + 1) / 2
+      let bs2 := halfBs + logQ + 1
+      let newBs := max bs1 bs2
+      if newBs > 64 then .panic "assert"
+      else
+        let om := modqPow omega (n / halfnn : Nat) q
+        let tw := packedPowers q halfBs (halfnn - 1) om om
+        match fwdLevels q logQ omega n bsAfter fuel (nn / 2) newBs with
+        | .ok (ls, b) => .ok (({ q2bs := q2bs, bs := newBs, halfBs := halfBs, mask := maskOf halfBs, reduce := doReduce }, tw) :: ls, b)
+        | o => o
+    else
+      match fwdLevels q logQ omega n bsAfter fuel (nn / 2) (bs + 1) with
+      | .ok (ls, b) => .ok (({ q2bs := q2bs, bs := bs + 1, halfBs := 0, mask := 0, reduce := doReduce }, []) :: ls, b)
+      | o => o
+
+/-- `NttTable::<P>::new(n)`, prime `k` -/
+def nttTableK (P : PrimeSet) (k n : Nat) : Outcome TableK :=
+  if !(isPow2 n && decide (n ≤ 2 ^ 16)) then .panic "assert"
+  else
+    let q := P.qs.getD k 1
+    let omega := modqPow (P.omega.getD k 0) ((2 ^ 16 / n : Nat) : Int) q
+    let (reduc, bsAfter) := reducOf P k
+    if n = 1 then .ok { n := n, levels := [], reduc := reduc, outBs := 64 }
+    else
+      let bs0 := 32 + P.logQ + 1
+      let l0 : Level := ({ q2bs := 0, bs := bs0, halfBs := 32, mask := maskOf 32, reduce := false }, packedPowers q 32 n 1 omega)
+      match fwdLevels q P.logQ omega n bsAfter (Nat.log2 n) n bs0 with
+      | .ok (ls, b) => .ok { n := n, levels := l0 :: ls, reduc := reduc, outBs := b }
+      | .err e => .err e
+      | .panic c => .panic c
+
+/-- the `while nn <= n` loop of `NttTableInv::new` (levels `nn = 4, 8, …, n`) -/
+def invLevels (q logQ omega n bsAfter : Nat) : Nat → Nat → Nat → Outcome (List Level × Nat)
+  | 0, _, bs => .ok ([], bs)
+  | fuel + 1, nn, bs =>
+    let halfnn := nn / 2
+    let doReduce := bs == 64
+    let bs := if doReduce then bsAfter else bs
+    let halfBs := (bs + 1) / 2
+    let bsMult := halfBs + logQ + 1
+    let newBs := 1 + max bs bsMult
+    if newBs > 64 then .panic "assert"
+    else
+      let q2bs := wu64 (q * 2 ^ (bsMult - logQ))
+      let om := modqPow omega (-((n / halfnn : Nat) : Int)) q
+      let tw := packedPowers q halfBs (halfnn - 1) om om
+      match invLevels q logQ omega n bsAfter fuel (nn * 2) newBs with
+      | .ok (ls, b) => .ok (({ q2bs := q2bs, bs := newBs, halfBs := halfBs, mask := maskOf halfBs, reduce := doReduce }, tw) :: ls, b)
+      | o => o
+
+/-- `NttTableInv::<P>::new(n)`, prime `k`: levels `nn = 2`, `4 … n`, then the last pass -/
+def inttTableK (P : PrimeSet) (k n : Nat) : Outcome TableK :=
+  if !(isPow2 n && decide (n ≤ 2 ^ 16)) then .panic "assert"
+  else
+    let q := P.qs.getD k 1
+    let omega := modqPow (P.omega.getD k 0) ((2 ^ 16 / n : Nat) : Int) q
+    let (reduc, bsAfter) := reducOf P k
+    if n = 1 then .ok { n := n, levels := [], reduc := reduc, outBs := 64 }
+    else
+      -- level 0 (nn = 2): bs == 64 on entry
+      let bsA := bsAfter
+      let l0 : Level := ({ q2bs := wu64 (q * 2 ^ (bsA - P.logQ)), bs := bsA + 1, halfBs := 0, mask := 0, reduce := true }, [])
+      match invLevels q P.logQ omega n bsAfter (Nat.log2 n - 1) 4 (bsA + 1) with
+      | .ok (ls, b) =>
+        let doReduce := b == 64
+        let bs := if doReduce then bsAfter else b
+        let halfBs := (bs + 1) / 2
+        let newBs := halfBs + P.logQ + 1
+        if newBs > 64 then .panic "assert"
+        else
+          let invN := modqPow n (-1) q
+          let omInv := modqPow omega (-1) q
+          let last : Level := ({ q2bs := wu64 (q * 2 ^ (newBs - P.logQ)), bs := newBs, halfBs := halfBs, mask := maskOf halfBs, reduce := doReduce },
+                               packedPowers q halfBs n invN omInv)
+          .ok { n := n, levels := l0 :: ls ++ [last], reduc := reduc, outBs := newBs }
+      | .err e => .err e
+      | .panic c => .panic c
+
+/-- `if do_reduce { modq_red(x, …) } else { x }` -/
+def redIf (r : ReducK) (m : StepMeta) (x : Nat) : Nat := if m.reduce then modqRed x r.h r.mask r.cst else x
+
+/-- the butterfly without twiddle: `(a, b) → (a + b, a + q2bs − b)` on the (optionally reduced) inputs -/
+def bfly (r : ReducK) (m : StepMeta) (a b : Nat) : Nat × Nat :=
+  let a := redIf r m a
+  let b := redIf r m b
+  (wu64 (a + b), subU64 (wu64 (a + m.q2bs)) b)
+
+/-- forward block, positions `i ≥ 1`: the difference is multiplied by `powomega[po_off + 4(i−1) + k]` -/
+def fwdTail (r : ReducK) (m : StepMeta) : List Nat → List Nat → List Nat → List Nat × List Nat
+  | po :: tw, a :: lo, b :: hi =>
+    let xy := bfly r m a b
+    let rest := fwdTail r m tw lo hi
+    (xy.1 :: rest.1, splitPrecompmul xy.2 po m.halfBs m.mask :: rest.2)
+  | _, _, _ => ([], [])
+
+/-- `ntt_butterfly_block` on the two halves of one block -/
+def fwdBfly (r : ReducK) (m : StepMeta) (tw : List Nat) : List Nat → List Nat → List Nat × List Nat
+  | a :: lo, b :: hi =>
+    let xy := bfly r m a b
+    let rest := fwdTail r m tw lo hi
+    (xy.1 :: rest.1, xy.2 :: rest.2)
+  | _, _ => ([], [])
+
+/-- the butterfly levels `nn = |v|, |v|/2, …, 2` of `ntt_ref` on one block -/
+def nttLevels (r : ReducK) : List Level → List Nat → List Nat
+  | [], v => v
+  | (m, tw) :: rest, v =>
+    let h := v.length / 2
+    let lh := fwdBfly r m tw (v.take h) (v.drop h)
+    nttLevels r rest lh.1 ++ nttLevels r rest lh.2
+
+/-- `ntt_ref(table, data)`, one lane: first pass `a[i] *= ω^i`, then the butterfly levels -/
+def nttK (t : TableK) (v : List Nat) : List Nat :=
+  match t.levels with
+  | [] => v
+  | (m0, tw0) :: rest => nttLevels t.reduc rest (List.zipWith (fun x po => splitPrecompmul x po m0.halfBs m0.mask) v tw0)
+
+/-- inverse block, positions `i ≥ 1`: `b` is multiplied by the twiddle before the butterfly -/
+def invTail (r : ReducK) (m : StepMeta) : List Nat → List Nat → List Nat → List Nat × List Nat
+  | po :: tw, a :: lo, b :: hi =>
+    let a' := redIf r m a
+    let bo := splitPrecompmul (redIf r m b) po m.halfBs m.mask
+    let rest := invTail r m tw lo hi
+    (wu64 (a' + bo) :: rest.1, subU64 (wu64 (a' + m.q2bs)) bo :: rest.2)
+  | _, _, _ => ([], [])
+
+/-- `intt_butterfly_block` on the two halves of one block -/
+def invBfly (r : ReducK) (m : StepMeta) (tw : List Nat) : List Nat → List Nat → List Nat × List Nat
+  | a :: lo, b :: hi =>
+    let xy := bfly r m a b
+    let rest := invTail r m tw lo hi
+    (xy.1 :: rest.1, xy.2 :: rest.2)
+  | _, _ => ([], [])
+
+/-- the butterfly levels of `intt_ref` on one block; `levels` = the levels of block sizes
+`|v|, |v|/2, …, 2` (i.e. the table's butterfly levels reversed): the halves are completed first -/
+def inttLevels (r : ReducK) : List Level → List Nat → List Nat
+  | [], v => v
+  | (m, tw) :: rest, v =>
+    let h := v.length / 2
+    let lo := inttLevels r rest (v.take h)
+    let hi := inttLevels r rest (v.drop h)
+    let lh := invBfly r m tw lo hi
+    lh.1 ++ lh.2
+
+/-- `intt_ref(table, data)`, one lane: butterfly levels, then the last pass `a[i] *= ω^{-i}·n^{-1}` -/
+def inttK (t : TableK) (v : List Nat) : List Nat :=
+  match t.levels.reverse with
+  | [] => v
+  | (mL, twL) :: revLevels =>
+    let w := inttLevels t.reduc revLevels v
+    List.zipWith (fun x po => splitPrecompmul (redIf t.reduc mL x) po mL.halfBs mL.mask) w twL
+
+/-- lane `k` of a q120b vector (`data[4·i + k]`) and the inverse interleaving -/
+def lane (k : Nat) (data : Array Nat) (n : Nat) : List Nat := (List.range n).map (fun i => data.getD (4 * i + k) 0)
+def interleave4 (l0 l1 l2 l3 : Array Nat) (n : Nat) : List Nat :=
+  (List.range n).flatMap (fun i => [l0.getD i 0, l1.getD i 0, l2.getD i 0, l3.getD i 0])
+
+/-- `ntt_ref::<P>(&NttTable::new(n), data)` / `intt_ref::<P>(&NttTableInv::new(n), data)` on a whole
+q120b vector (`debug_assert!(data.len() >= 4 * n)` for `n > 1`) -/
+def transform (P : PrimeSet) (inverse : Bool) (n : Nat) (data : Array Nat) : Outcome (List Nat) :=
+  let tab := fun k => if inverse then inttTableK P k n else nttTableK P k n
+  match tab 0, tab 1, tab 2, tab 3 with
+  | .ok t0, .ok t1, .ok t2, .ok t3 =>
+    if n = 1 then .ok data.toList
+    else if data.size < 4 * n then .panic "assert"
+    else
+      let run := fun (t : TableK) k => ((if inverse then inttK t (lane k data n) else nttK t (lane k data n))).toArray
+      .ok (interleave4 (run t0 0) (run t1 1) (run t2 2) (run t3 3) n ++ (data.toList.drop (4 * n)))
+  | .panic c, _, _, _ => .panic c
+  | _, _, _, _ => .panic "assert"
+
+/-! ### the product pipeline with the real transforms -/
+
+/-- `ntt_ref` / `intt_ref` on lane `k` with the tables of size `n` (as `transform` runs them) -/
+def realNtt (P : PrimeSet) (n k : Nat) (v : List Nat) : List Nat :=
+  match nttTableK P k n with
+  | .ok t => nttK t v
+  | _ => v
+def realIntt (P : PrimeSet) (n k : Nat) (v : List Nat) : List Nat :=
+  match inttTableK P k n with
+  | .ok t => inttK t v
+  | _ => v
+
+/-- `svp_prepare(p)`, `vec_znx_dft_apply(x)`, `svp_apply_dft_to_dft`, `vec_znx_idft_apply` on one limb of
+ring degree `n`, NTT120 back end: everything executable -/
+def svpPipeline (P : PrimeSet) (n : Nat) (p x : Poly) : List Int :=
+  nttPipeline P (bbcH P) (realNtt P n) (realIntt P n) p x
+
+/-! ### sums of products (the arithmetic of `vmp_apply_dft_to_dft` for one output column) -/
+
+/-- one slot of a sum of products: `bbc` with one row per pair `(lazy residue of the input limb's
+transform, lazy residue of the matrix entry's transform)`, the second prepared by `c_from_b` -/
+def slotDotK (q h : Nat) (pairs : List (Nat × Nat)) : Nat :=
+  bbcK h (pow2Mod 32 q) (pow2Mod (32 + h) q)
+    (pairs.map (fun p => ((u32Pair p.1).1, (u32Pair p.1).2, (cFromBK q p.2).getD 0 0, (cFromBK q p.2).getD 1 0)))
+
+/-- lane of prime `q` for `Σ_j p_j ⋆ x_j`: `rows = [(p_j, x_j)]`, `p_j` the prepared (matrix) side -/
+def laneSumK (q h n : Nat) (ntt intt : List Nat → List Nat) (rows : List (Poly × Poly)) : List Nat :=
+  let tr := rows.map (fun r => (ntt (r.2.map (fun c => bFromU64K q (asU64 c))), ntt (r.1.map (fun c => bFromU64K q (asU64 c)))))
+  intt ((List.range n).map (fun i => slotDotK q h (tr.map (fun r => (r.1.getD i 0, r.2.getD i 0)))))
+
+/-- `vmp_prepare` of the rows `p_j`, `vec_znx_dft_apply` of the limbs `x_j`, `vmp_apply_dft_to_dft` (one
+output column, `ell = |rows|`), `vec_znx_idft_apply`: everything executable -/
+def vmpPipeline (P : PrimeSet) (n : Nat) (rows : List (Poly × Poly)) : List Int :=
+  let l0 := laneSumK P.q0 (bbcH P) n (realNtt P n 0) (realIntt P n 0) rows
+  let l1 := laneSumK P.q1 (bbcH P) n (realNtt P n 1) (realIntt P n 1) rows
+  let l2 := laneSumK P.q2 (bbcH P) n (realNtt P n 2) (realIntt P n 2) rows
+  let l3 := laneSumK P.q3 (bbcH P) n (realNtt P n 3) (realIntt P n 3) rows
+  (List.range n).map (fun i => bToZnx128Core P (l0.getD i 0) (l1.getD i 0) (l2.getD i 0) (l3.getD i 0))
+
 end Ntt120
